@@ -282,7 +282,7 @@ def entity_choices(fo: oracle.FormOracle, itype, mode="full"):
 # one configuration: build, compile, run every (type, id) x geometry x entity x code, compare with R
 # ---------------------------------------------------------------------------------------------------
 def check_form_against_oracle(form, mesh, cell, geom, scalar, options, seed, entity_mode="sweep", instances=("ref", "aff", "rev"),
-                              cmplx_data=None, max_calls=None, keep=False):
+                              cmplx_data=None, max_calls=None, keep=False, poison=False, check_positions=False):
     """Returns dict(status, evaluations, nontrivial, maxerr, failures=[...], notes)."""
     cmplx = "complex" in scalar
     if cmplx_data is None:
@@ -309,6 +309,17 @@ def check_form_against_oracle(form, mesh, cell, geom, scalar, options, seed, ent
                 res["status"] = "rejected"
                 res["why"] = f"{type(e).__name__}: {str(e)[:200]}"
             return res
+        if check_positions:
+            want = [fo.original_coefficients.index(cf) for cf in fo.coefficients]
+            if comp.positions != want or comp.num_coefficients != len(want):
+                res["failures"].append(dict(kind="positions", text=f"original_coefficient_positions {comp.positions} (num_coefficients {comp.num_coefficients}) "
+                                            f"but the coefficients surviving in the form are at original positions {want}"))
+                res["status"] = "violation"
+                return res
+            if comp.num_constants != len(fo.constants):
+                res["failures"].append(dict(kind="constants", text=f"num_constants {comp.num_constants} but the original form has {len(fo.constants)}"))
+                res["status"] = "violation"
+                return res
         rng = np.random.default_rng([seed, 7])
         tol = TOL[scalar]
         zero_tol = None
@@ -349,16 +360,30 @@ def check_form_against_oracle(form, mesh, cell, geom, scalar, options, seed, ent
                                                     text=f"no kernel listed under ({itype}, {sid}) for integration entity type {ecell}"))
                         continue
                     wv, cv = pack(fo, comp, w, c, sides)
-                    call = Call(scalar, A0, wv, cv, pack_geometry(Xs), ents[: len(sides)] if itype != "cell" else (0,),
-                                codes[: len(sides)] if itype == "interior_facet" else (0, 0), null_entity=(itype == "cell"))
-                    for k in valid:
-                        call.run(comp.kernels[k])
-                    A = call.result()
+                    br_all = []
+                    if poison:
+                        # every coefficient the kernel flags as disabled is left "unpacked" (NaN) for that kernel
+                        Acur = A0
+                        for k in valid:
+                            wk, _ = pack(fo, comp, w, c, sides, poison_disabled_for=comp.kernels[k])
+                            call = Call(scalar, Acur, wk, cv, pack_geometry(Xs), ents[: len(sides)] if itype != "cell" else (0,),
+                                        codes[: len(sides)] if itype == "interior_facet" else (0, 0), null_entity=(itype == "cell"))
+                            call.run(comp.kernels[k])
+                            Acur = call.result()
+                            br_all += call.breaches()
+                        A = Acur
+                        call = None
+                    else:
+                        call = Call(scalar, A0, wv, cv, pack_geometry(Xs), ents[: len(sides)] if itype != "cell" else (0,),
+                                    codes[: len(sides)] if itype == "interior_facet" else (0, 0), null_entity=(itype == "cell"))
+                        for k in valid:
+                            call.run(comp.kernels[k])
+                        A = call.result()
                     err, scale = rel_err(A, np.asarray(R).ravel() if shape else np.asarray(R).reshape(1))
                     res["evaluations"] += 1
                     if scale > 1e-12:
                         res["nontrivial"] += 1
-                    br = call.breaches()
+                    br = call.breaches() if call is not None else br_all
                     bad = (not np.all(np.isfinite(A))) or err > tol or br
                     if bad and not br and np.all(np.isfinite(A)) and err < 1e-5 and "64" in scalar or (bad and not br and "128" in scalar and err < 1e-5):
                         # possibly induced by table clamping tolerances: recompile with zero tolerances
